@@ -93,9 +93,17 @@ def ensure_driver(ck):
 
 
 def stream_dir(ck):
-    d = f"{WORK}/streams/{ck.pid}"
+    # one directory per invocation: concurrent checks (other seeds) must not share stream files
+    d = f"{WORK}/streams/{ck.pid}/seed{ck.seed}-{os.getpid()}"
     os.makedirs(d, exist_ok=True)
     return d
+
+
+def cleanup(ck):
+    """a clean run leaves nothing behind (the streams are tens of MB); a failing one keeps its files"""
+    if not ck.violations and not ck.broken:
+        import shutil
+        shutil.rmtree(stream_dir(ck), ignore_errors=True)
 
 
 def run_harness(ck, stream, env=None, timeout=900):
@@ -564,8 +572,8 @@ def run(ck):
             "aux_observations (not clauses of C06)": dict(an.aux), "witnesses_reproduce_on": witnesses,
             "stream_seconds": round(time.time() - t_streams, 1)}
         ck.cov["exhaustive"] = ("rig, every assignment of <= k requests (read|write × line × start offset) to 2 and 3 cores on line sets {0},{0,64},{0,128 (MVP-8)}, "
-                                "modulo line/time-shift symmetry: quick k=3, offsets {0,2,310,313}; thorough k=4, offsets {0,1,3,4,309,310,313}; "
-                                "every run judged by the Go side, every 5th (quick) run also rendered and judged/replayed by Lean")
+                                "modulo line/time-shift symmetry: quick k=3 (≈ 4·10^4 runs), thorough k=4 (≈ 9.6·10^5 runs), offsets {0,2,310,313}; "
+                                "every run judged by the Go side, every 5th (quick) / 97th (thorough) run also rendered and judged/replayed by Lean")
         # ---- verdicts
         seen = set()
         for rec in an.hard:
@@ -611,6 +619,7 @@ def run(ck):
         "addresses inside a line and the 1 KB / 16-line geometry are taken from the code; |address| + 64 < 2^31"]
     if not built:
         ck.notes.append("Props/C06 did not build")
+    cleanup(ck)
     ck.finish("proof")
 
 
